@@ -30,9 +30,13 @@ type c20Scenario struct {
 	Initial string // changes applied before anything starts
 	Changes string // ENV thread: 'A' put k1=b1, 'B' put k1=b2, 'D' delete k1, 'a' put k2=b1, 'd' delete k2
 	Break   bool   // offer watch-stream breaks
+	FailGet bool   // after start-up, etcd reads of the router may fail (the reload after a stream break)
 }
 
 func (sc c20Scenario) String() string {
+	if sc.FailGet {
+		return fmt.Sprintf("group=%v|init=%s|chg=%s|break=%v|reload-may-fail", sc.Group, sc.Initial, sc.Changes, sc.Break)
+	}
 	return fmt.Sprintf("group=%v|init=%s|chg=%s|break=%v", sc.Group, sc.Initial, sc.Changes, sc.Break)
 }
 
@@ -73,6 +77,8 @@ func c20Body(sc c20Scenario) func(s *sched.Sched) {
 			} else {
 				pr, startErr = NewPartitionRouter(ctx, cli.C, c18Logger())
 			}
+			// start-up must succeed (a router that cannot load does not start); later reads may fail
+			cli.FailOps = sc.FailGet
 		})
 		s.Go("ENV", func() {
 			for _, ch := range []byte(sc.Changes) {
@@ -151,6 +157,11 @@ func c20Scenarios(thorough bool) []c20Scenario {
 				for _, br := range []bool{false, true} {
 					out = append(out, c20Scenario{Group: group, Initial: init, Changes: string(b), Break: br})
 				}
+				// stream break followed by a failing reload: the table the router keeps serving from, plus
+				// the catch-up from its last loaded revision, must still converge
+				if len(b) <= 1 || thorough {
+					out = append(out, c20Scenario{Group: group, Initial: init, Changes: string(b), Break: true, FailGet: true})
+				}
 				return true
 			})
 		}
@@ -161,7 +172,7 @@ func c20Scenarios(thorough bool) []c20Scenario {
 func TestVerifC20(t *testing.T) {
 	rep := vh.New(t, "C20")
 	defer rep.Finish()
-	rep.Rule = "for every closed system (initial leases x sequence of lease puts/deletes x router kind x breaks allowed): DFS over interleavings of router start-up (Get, Watch establishment), environment changes and watch deliveries, with stream-break decisions (deviation bound); after quiescence + virtual time for reconnects the table must equal etcd; distinct = distinct final tables per scenario; non-trivial = >=1 thread switch or break"
+	rep.Rule = "for every closed system (initial leases x sequence of lease puts/deletes x router kind x breaks allowed x reload reads may fail): DFS over interleavings of router start-up (Get, Watch establishment), environment changes and watch deliveries, with stream-break decisions (deviation bound); after quiescence + virtual time for reconnects the table must equal etcd; distinct = distinct final tables per scenario; non-trivial = >=1 thread switch or break"
 	rep.Assumptions = []string{"fake etcd watch: events of one revision delivered as one batch in revision order; a broken stream ends with a canceled response and a closed channel, undelivered events lost", "virtual time (synctest) for the 1 s reconnect sleep"}
 	P, D := 2, 1
 	if vh.Thorough() {
@@ -196,7 +207,11 @@ func TestVerifC20(t *testing.T) {
 			continue
 		}
 		sc := sc
-		st := sched.Explore(t, cfg, c20Body(sc), func(x *sched.Exec) {
+		scfg := cfg
+		if sc.FailGet && scfg.MaxDev < 2 {
+			scfg.MaxDev = 2 // one break + one failing read
+		}
+		st := sched.Explore(t, scfg, c20Body(sc), func(x *sched.Exec) {
 			rep.Eval(1)
 			sw, dev := x.NonDefault()
 			rep.Outcome(sc.String()+fmt.Sprint(x.Notes), sw > 0 || dev > 0)
